@@ -17,7 +17,7 @@ calls sprinkled in) plus several operation sequences, each run on a fresh reader
                (`zlib.decompressobj` on 8192-byte raw blocks, empty chunks kept).
 * regimes    : `segs` payloads = segments whose compression ratios differ by orders of magnitude (noise about 1, 16-symbol
                noise about 2, text about 5, periodic data and runs of one byte up to about 1000) with the dominating segment at
-               the start, in the middle, at the END of the stream or alone; a handful of payloads of 1.1 to 2.6 MiB (thorough:
+               the start, in the middle, at the END of the stream or alone; a handful of payloads of 1.1 to 2.6 MiB (thorough: more of them;
                up to 4 MiB) whose single raw block inflates to megabytes. The driver gets such payloads as a compact
                description (`@LEN*PATTERN,…`) that both sides expand.
 * trailing   : bytes after the end-of-stream marker (zero padding, random bytes, little-endian integers that look like a
@@ -81,7 +81,7 @@ RULE = (
     "compared three ways (implementation, io.BytesIO oracle, Lean model). evaluations = operations compared "
     "(read side and write side). Further groups: payloads built from segments of very different compression ratios "
     "(about 1 to about 1000 decompressed bytes per raw byte) with the dominating run at the start / middle / end / alone, "
-    "lengths up to 600000 and a handful of 1.1-2.6 MiB (thorough: up to 4 MiB); files with 1..20000 bytes after the end of the "
+    "lengths up to 600000 and a handful of 1.1-2.6 MiB; files with 1..20000 bytes after the end of the "
     "compressed stream (zeros, random, little-endian 32-bit integers near the payload size), reference stream = the payload; "
     "end-seek sequences: seek(-k, 2) in a chosen state (fresh, mid-stream, after EOF, after a rewind) followed by reads. "
     "non-trivial = payload non-empty and the sequence has at least one read-like "
@@ -749,7 +749,9 @@ def _gen_cases(rng, mode):
         cases.append(_gen_file(rng, spec, cls, lv, 2, min(maxlen, 40), budget // 2, 12, trail=trail, endseqs=1, under=under))
     for i in range(n_big):
         cls, lv = next(combos)
-        hi = (_MAX_LEN - 200000) if mode == "thorough" and i % 4 == 3 else 2_600_000
+        # (payloads of ~4 MiB were tried in the thorough tier: one such case costs the MODEL driver 10-16 CPU-minutes - its read()
+        # is quadratic in chunks x length - and adds no regime that 2.6 MiB does not reach)
+        hi = 2_600_000
         spec = _gen_segs(rng, rng.randint(_MIB + 100_000, hi), places[i % len(places)])
         trail = _gen_trail(rng) if i % 3 == 2 else None
         under = rng.choice([None, None, 4096, 8191])  # few chunks: the model's cost is (chunks x length)
